@@ -161,8 +161,8 @@ Qed.
 
 (* ---------- after SaveAutofixChanges ---------- *)
 
-Theorem no_stale_after_save : forall md cap disk s v s' w, (1 <= cap)%nat -> reach md cap disk s ->
-  step md s (OSave v) = Ok (s', ObsSave w) ->
+Theorem no_stale_after_save : forall md cap disk s v fl s' w, (1 <= cap)%nat -> reach md cap disk s ->
+  step md s (OSave v fl) = Ok (s', ObsSave w) ->
   (* every rewritten file, and in every mode the file of every modified line, is out of the cache *)
   (forall k x, In (k, x) w -> map_get k (c_map (st_cache s')) = None) /\
   (forall fn ls l, view_lines s v = Some (fn, ls) -> In l ls -> is_modified l = true ->
@@ -175,11 +175,11 @@ Theorem no_stale_after_save : forall md cap disk s v s' w, (1 <= cap)%nat -> rea
      load s' fn o = Ok (s'', r) ->
      load_obs s'' r = fresh_read convert (st_disk s') fn o).
 Proof.
-  intros md cap disk s v s' w Hc R. destruct (reach_Inv_cap _ _ _ _ _ _ Hc R) as [I _].
+  intros md cap disk s v fl s' w Hc R. destruct (reach_Inv_cap _ _ _ _ _ _ Hc R) as [I _].
   simpl. destruct (view_lines s v) as [[fn ls]|] eqn:V; [|intros H; inversion H].
-  destruct (save_lines md (st_cache s) (st_disk s) ls) as [[c' d'] w'] eqn:S.
+  destruct (save_lines md fl (st_cache s) (st_disk s) ls) as [[c' d'] w'] eqn:S.
   intros H; inversion H; subst; clear H. simpl.
-  destruct (save_lines_spec _ _ _ _ _ _ _ S) as (ks & -> & HK & HD & HW).
+  destruct (save_lines_spec _ _ _ _ _ _ _ _ S) as (ks & -> & HK & HD & HW).
   destruct (evicts_spec ks _ (inv_wf _ _ I)) as (W' & _ & _ & _ & HN & _).
   assert (P1 : forall k x, In (k, x) w -> map_get k (c_map (evicts ks (st_cache s))) = None).
   { intros k x Hin. apply HN. eapply HW; eauto. }
@@ -194,6 +194,37 @@ Proof.
   - apply in_map_iff in Hin. destruct Hin as ([k x] & Hk & Hin). simpl in Hk. subst k.
     rewrite (P1 _ _ Hin) in Hget. discriminate.
   - rewrite <- Hk, (P2 _ _ _ Heq Hl Hm) in Hget. discriminate.
+Qed.
+
+(* a FAILING save (the temporary file cannot be created / written / renamed):
+   nothing is reported as written, the file keeps its content, and the file of
+   every modified line is out of the cache all the same, so the next Load of it
+   returns the lines of the UNCHANGED disk content -- not the fixed lines that
+   are still in memory *)
+Theorem no_stale_after_failed_save : forall md cap disk s v fl s' w, (1 <= cap)%nat -> reach md cap disk s ->
+  step md s (OSave v fl) = Ok (s', ObsSave w) ->
+  (forall k, key_in k fl = true ->
+     map_get k (st_disk s') = map_get k (st_disk s) /\ ~ In k (map fst w)) /\
+  (forall f ls l fn o s'' r,
+     view_lines s v = Some (f, ls) -> In l ls -> is_modified l = true ->
+     key fn = key (ln_file l) -> key_in (key fn) fl = true ->
+     load s' fn o = Ok (s'', r) ->
+     map_get (key fn) (c_map (st_cache s')) = None /\
+     load_obs s'' r = fresh_read convert (st_disk s) fn o).
+Proof.
+  intros md cap disk s v fl s' w Hc R St.
+  destruct (no_stale_after_save md cap disk s v fl s' w Hc R St) as (_ & N2 & N3).
+  assert (F : forall k, key_in k fl = true ->
+     map_get k (st_disk s') = map_get k (st_disk s) /\ ~ In k (map fst w)).
+  { revert St. simpl. destruct (view_lines s v) as [[fn ls]|] eqn:V; [|intros H; inversion H].
+    destruct (save_lines md fl (st_cache s) (st_disk s) ls) as [[c' d'] w'] eqn:S.
+    intros H; inversion H; subst; clear H. simpl. apply (save_lines_failed _ _ _ _ _ _ _ _ S). }
+  split; auto.
+  intros f ls l fn o s'' r V Hl Hm Hk Hf L. split.
+  - rewrite Hk. eapply N2; eauto.
+  - rewrite (N3 fn o s'' r); auto.
+    + rewrite !fresh_read_unfold. destruct (F _ Hf) as [-> _]. auto.
+    + right. exists f, ls, l. auto.
 Qed.
 
 (* ---------- Line objects are not shared between loads ---------- *)
@@ -247,6 +278,66 @@ Proof.
         -- simpl. intros H; inversion H; subst; clear H. split; auto.
            rewrite <- (map_length (new_line fn) (convert raw o)). apply Gen; auto.
     + destruct (has_opt o MustSucceed); [discriminate|]. intros H; inversion H.
+Qed.
+
+(* the views only grow, and every view is a block of consecutive addresses *)
+Lemma load_views s fn o s' r : load s fn o = Ok (s', r) ->
+  st_views s' = st_views s \/ exists st n, st_views s' = st_views s ++ [(fn, seq st n)].
+Proof.
+  unfold FileCache.load.
+  destruct (get (st_cache s) (st_heap s) fn o) as [[c1 h1] r0] eqn:G.
+  destruct (get_spec _ _ _ _ _ _ _ G) as [(eid & E & Ho & -> & ->)|(-> & -> & _)].
+  - intros H; inversion H; subst; simpl. right; eauto.
+  - destruct (map_get (key fn) (st_disk s)) as [raw|].
+    + destruct (is_empty raw && has_opt o NotEmpty)%bool.
+      * destruct (has_opt o MustSucceed); [discriminate|]. intros H; inversion H; subst; auto.
+      * destruct (is_mk (key fn)).
+        -- destruct (put c1 (key fn) o _) as [c2|w]; simpl; [|discriminate].
+           intros H; inversion H; subst; simpl. right; eauto.
+        -- simpl. intros H; inversion H; subst; simpl. right; eauto.
+    + destruct (has_opt o MustSucceed); [discriminate|]. intros H; inversion H; subst; auto.
+Qed.
+
+Lemma step_views md s o s' ob : step md s o = Ok (s', ob) ->
+  st_views s' = st_views s \/ exists fn st n, st_views s' = st_views s ++ [(fn, seq st n)].
+Proof.
+  destruct o as [fn opts|v i f|v fl|k x]; simpl.
+  - destruct (load s fn opts) as [[s1 r]|w] eqn:L; simpl; [|discriminate].
+    intros H; inversion H; subst. destruct (load_views _ _ _ _ _ L) as [->|(st & n & ->)]; eauto.
+  - destruct (nth_error (st_views s) v) as [[fn addrs]|]; [|intros H; inversion H; subst; auto].
+    destruct (nth_error addrs i) as [a|]; [|intros H; inversion H; subst; auto].
+    destruct (fix_line md (line_at (st_heap s) a) f) as [[l' acted]|w]; simpl; [|discriminate].
+    intros H; inversion H; subst; auto.
+  - destruct (view_lines s v) as [[fn ls]|]; [|intros H; inversion H; subst; auto].
+    destruct (save_lines md fl (st_cache s) (st_disk s) ls) as [[c' d'] w].
+    intros H; inversion H; subst; auto.
+  - intros H; inversion H; subst; auto.
+Qed.
+
+Lemma reach_views_nodup md cap disk s : reach md cap disk s ->
+  forall v fn addrs, nth_error (st_views s) v = Some (fn, addrs) -> NoDup addrs.
+Proof.
+  intros R. induction R as [|s o s' ob R IH St].
+  - intros v fn addrs H. destruct v; discriminate.
+  - intros v fn addrs H.
+    destruct (step_views _ _ _ _ _ St) as [E|(fn0 & st & n & E)]; rewrite E in H.
+    + eapply IH; eauto.
+    + apply nth_error_snoc in H. destruct H as [[_ H]|[_ H]].
+      * eapply IH; eauto.
+      * inversion H; subst. apply seq_NoDup.
+Qed.
+
+(* over a whole run no Line object is handed out twice: two Loads never return a
+   common Line, and no Load returns the same Line at two positions *)
+Theorem line_ids_never_reused : forall md cap disk s, (1 <= cap)%nat -> reach md cap disk s ->
+  (forall v w fv av fw aw a,
+     nth_error (st_views s) v = Some (fv, av) -> nth_error (st_views s) w = Some (fw, aw) ->
+     In a av -> In a aw -> v = w) /\
+  (forall v fn addrs, nth_error (st_views s) v = Some (fn, addrs) -> NoDup addrs).
+Proof.
+  intros md cap disk s Hc R. destruct (reach_Inv_cap _ _ _ _ _ _ Hc R) as [I _]. split.
+  - apply (inv_disj _ _ I).
+  - eapply reach_views_nodup; eauto.
 Qed.
 
 Theorem fix_touches_one_view : forall md cap disk s v i f s' ob, (1 <= cap)%nat -> reach md cap disk s ->
